@@ -377,11 +377,14 @@ impl Family for C16Family {
             for k in 0..ch.stray_before {
                 q.push(Packet { chan: ci, bytes: stray(cb, k), of_msg: None });
             }
+            let last_cont_count = msg_packets.last().map(|mp: &Vec<Packet>| mp.len().saturating_sub(1)).unwrap_or(3);
             for mp in msg_packets {
                 q.extend(mp);
             }
             for k in 0..ch.stray_after {
-                q.push(Packet { chan: ci, bytes: stray(cb, k.wrapping_add(3)), of_msg: None });
+                // (numbered on from where the channel's last message stopped: a receiver that kept anything of a
+                // finished message would take them for its continuation)
+                q.push(Packet { chan: ci, bytes: stray(cb, (last_cont_count as u8).wrapping_add(k) & 0x7f), of_msg: None });
             }
             queues.push(q);
             sent.push(accepted);
